@@ -639,3 +639,34 @@ for _lbl, _ty, _ec in (("meta present", "C06GelW", _EC_JSON), ("meta absent", "C
         raises="none",
         unreachable_ok=["pass"],     # the defensive `except Exception: pass` of the sync block: dict stores cannot raise
     )
+
+
+# ---------------------------------------------------------------- "loading the latest snapshot": newest by raw mtime
+# Among state_*.json / *.json candidates the pick is the one with the greatest modification time.  Engine-F clause: every
+# descending sort in _pick_latest_snapshot_path whose key looks at the modification time uses os.path.getmtime(p) itself
+# as the key (a lossy key -- int(), round(), a tuple with a truncated first component -- merges distinct times and lets
+# something other than the write order decide which snapshot is "latest"; also registered for C01: which snapshot a boot
+# loads must not depend on how fast the turns ran).
+def _newest_by_raw_mtime(cl, mod, cls, func):
+    sorts = [n for n in _ast.walk(func) if isinstance(n, _ast.Call) and isinstance(n.func, _ast.Attribute) and n.func.attr == "sort"
+             and any(k.arg == "key" for k in n.keywords)]
+    out = []
+    seen = 0
+    helpers = {f.name: f for f in mod.tree.body if isinstance(f, _ast.FunctionDef)}
+    for c in sorts:
+        key = [k.value for k in c.keywords if k.arg == "key"][0]
+        body = key.body if isinstance(key, _ast.Lambda) else (helpers[key.id] if isinstance(key, _ast.Name) and key.id in helpers else key)
+        src = _ast.unparse(body)
+        if "getmtime" not in src:
+            continue
+        seen += 1
+        ok = (isinstance(key, _ast.Lambda) and len(key.args.args) == 1
+              and _ast.unparse(key.body) in ("os.path.getmtime(%s)" % key.args.args[0].arg,)) or _ast.unparse(key) == "os.path.getmtime"
+        out.append(_fres("%s#%d" % (cl["name"], seen - 1), "proved" if ok else "failed",
+                         "" if ok else "candidates at line %d are ordered by `%s`, not by the modification time itself" % (c.lineno, _ast.unparse(key))))
+    if not seen:
+        return [_fres(cl["name"], "error", "anchor lost: no mtime-ordered sort in _pick_latest_snapshot_path")]
+    return out
+
+
+R.fclause(["C06", "C01"], "discovery/newest-by-raw-mtime", "custom", S + "_pick_latest_snapshot_path", fn=_newest_by_raw_mtime)
